@@ -24,7 +24,7 @@ func init() {
 		ID:    "C02",
 		Level: "model_checking",
 		Rule: "BFS to closure of the used-nonce lattice over pairs {0,1}x{0,2^64-1} (quick) / {0,1}x{0,1,2^64-1} (thorough): each pair receivable as a plain message (v in {0,1}, submitter A) or as a module-addressed burn message " +
-			"(legacy v 27/28, submitter B), plus failing receives, pause/unpause, disabling and re-enabling an attester, unlinking and re-linking the token pair, removing and re-adding the remote token messenger; every other administrative transaction type probed in every state; used set observed through single query, paginated list and export in every state; " +
+			"(legacy v 27/28, submitter B), plus failing receives, pause/unpause, disabling and re-enabling an attester, unlinking and re-linking the token pair, removing and re-adding the remote token messenger, and the chain advancing a million blocks / ten years; every other administrative transaction type probed in every state; used set observed through single query, paginated list and export in every state; " +
 			"plus the ordered-pair grid {0,1,255,256,2^32-1}x{0,1,255,256,2^32-1,2^32,2^64-1} for key injectivity; distinct_nontrivial counts distinct (used set, transaction, outcome) triples and grid pairs",
 		Assumptions: []string{"attestations are produced by the harness keys (honest attesters); forgery is not attempted"},
 		Jobs:        c02Jobs,
@@ -154,10 +154,18 @@ func c02BFS(r *Run) {
 			u := map[string]bool{"1/5": true}
 			root.Model, root.MKey = model{u}, mkey(u)
 		},
-		Actions: func(n *Node, w *World) []Action { return menu },
+		Actions: func(n *Node, w *World) []Action {
+			if w.ctx.BlockHeight() == 1 { // the chain may move a million blocks / ten years ahead once
+				return append(append([]Action{}, menu...), AdvanceAction())
+			}
+			return menu
+		},
 		Step: func(r *Run, pre *Node, a Action, o Outcome, w *World, post *Node) bool {
 			m := pre.Model.(model)
 			next := m
+			if a.Type == AdvanceType {
+				return true // "a pair reported as used stays used for the rest of the chain's history": checked in State()
+			}
 			rp := func(exp, obs string) Replay {
 				x := scn.Replay("actions", post.Path)
 				x.Expected, x.Observed = exp, obs
